@@ -5,8 +5,17 @@ import vlib
 from vlib import Broken
 import zonechain as zc
 
+# zone-level writes of spec/ZoneChain.tla (recorded class on the zone database -> action)
 CLASS2SPEC = {"canon": "w_canon", "blockbatch": "w_batch", "head": "w_head", "rollbackbatch": "w_rollback",
               "rollbackbatch-without-head": "w_rollback_without_head"}
+# writes of spec/HierCrash.tla (any database); must equal specClass() in harness/cmd/chaindrv/crash.go
+HIER_CLASSES = {"body", "appendbatch", "canon", "head", "blockbatch", "pendingetxs", "pendingetxsrollup", "inboundetxs",
+                "rollbackbatch", "rollbackbatch-without-head"}
+DBNAME = {0: "prime", 1: "region", 2: "zone"}
+ORDER_OF = {"prime": 0, "region": 1, "zone": 2}
+
+QUICK_PLAN = "zone,region,prime,reorg,zone+size,reorg+size"
+THOROUGH_PLAN = "zone,region,prime,reorg,zone+size,reorg+size,prime,region,zone,reorg,prime+size,region+size"
 
 
 def spec_write_orders(ctx):
@@ -26,6 +35,37 @@ def spec_write_orders(ctx):
     return want, r
 
 
+def hier_spec(ctx):
+    """spec/HierCrash.tla: design run (Recoverable under up to 2 / 3 whole-process crashes), the lead (a dominant chain
+    committing before its subordinate chain), and the emitted behaviours: per block order the three-database write
+    sequence, every crash position, and the writes of the repeated offer after each of them."""
+    d = vlib.tlc_must_pass(ctx, "HierCrash", "MCHierCrash_quick.cfg" if ctx.quick else "MCHierCrash_big.cfg", workers=4, timeout=900)
+    lead = vlib.tlc(ctx, "HierCrash", "MCHierCrash_leadDomFirst.cfg", workers=4, timeout=900)
+    e = vlib.tlc_must_pass(ctx, "HierCrash", "MCHierCrash_emit.cfg", workers=4, timeout=900)
+    seqs, redo = {}, {}
+    name = lambda h: "%s:%s" % (DBNAME[h["db"]], h["class"])
+    for s in e.printed:
+        hist = json.loads(s)
+        order = hist[0]["db"]
+        ops = [h["op"] for h in hist]
+        if "crash" not in ops:
+            if ops.count("offer") == 1:
+                seqs[order] = [name(h) for h in hist if h["op"] == "w"]
+            continue
+        ci = ops.index("crash")
+        if ops[ci:].count("offer") != 1:
+            continue   # the block offered a second time to the restarted node (idempotence; checked by TLC only)
+        pos = sum(1 for h in hist[:ci] if h["op"] == "w")
+        after = [name(h) for h in hist[ci:] if h["op"] == "w"]
+        prev = redo.setdefault((order, pos), after)
+        if prev != after:
+            raise Broken("HierCrash.tla: two different repeated-offer sequences for order %d crash position %d" % (order, pos))
+    for o in (0, 1, 2):
+        if o not in seqs or any((o, p) not in redo for p in range(len(seqs[o]) + 1)):
+            raise Broken("HierCrash.tla emitted no complete set of behaviours for order %d" % o)
+    return d, lead, e, seqs, redo
+
+
 def run(ctx):
     quick = ctx.quick
     drv = vlib.go_build("chaindrv")
@@ -33,59 +73,122 @@ def run(ctx):
     d = zc.design_run(ctx, "MCZoneChain_quick.cfg" if quick else "MCZoneChain_big.cfg", timeout=3000)
     cov.update(states=d.distinct, transitions=d.generated, tlc_depth=d.depth)
     lead = zc.lead_run(ctx, "MCZoneChain_leadF6.cfg", "Recoverable")
-    cov["design_leads"] = [dict(lead, note="with the head pointer written AFTER the block batch (go-quai before fix 1accffa2) TLC finds the crash "
-                                            "window that loses the head write; kept as a regression lead, the binding below checks the real code")]
     if not lead["found_by_TLC"]:
         raise Broken("spec drift: the pre-fix design no longer exhibits the lost-head-write counterexample")
+    leadfl = zc.lead_run(ctx, "MCZoneChain_leadFlush.cfg", "NoHalfApply")
+    leadfr = zc.lead_run(ctx, "MCZoneChain_leadFlushRollback.cfg", "Recoverable")
+    if not leadfl["found_by_TLC"] or not leadfr["found_by_TLC"]:
+        raise Broken("spec drift: splitting an atomic unit in two commits (FlushBlockBatchMidway / FlushRollbackMidway) no longer "
+                     "violates NoHalfApply / Recoverable in ZoneChain.tla")
+    hd, hlead, he, hseqs, hredo = hier_spec(ctx)
+    if hlead.violated != "Recoverable":
+        raise Broken("spec drift: HierCrash.tla with DomCommitsFirst no longer violates Recoverable (%s)" % (hlead.violated or hlead.error))
+    cov["design_leads"] = [
+        dict(lead, note="with the head pointer written AFTER the block batch (go-quai before fix 1accffa2) TLC finds the crash "
+                        "window that loses the head write; kept as a regression lead, the binding below checks the real code"),
+        dict(leadfl, note="FlushBlockBatchMidway: the block batch reaching the database as two commits (size-triggered flush idiom); TLC "
+                          "finds the crash between the halves; the +size steps of the binding make every such flush point of the real code fire"),
+        dict(leadfr, note="FlushRollbackMidway: the same for the per-block rollback batch of a reorganisation (head left on a block that "
+                          "is no longer canonical at its own height)"),
+        {"cfg": "MCHierCrash_leadDomFirst.cfg", "expected_violation": "Recoverable", "found_by_TLC": True, "states": hlead.distinct,
+         "note": "a dominant chain committing its append batch before the subordinate chain's Append: the crash in between leaves the "
+                 "order level answering 'known' to the repeated offer while the subordinate chain never got the block"}]
+    cov.update(hier_states=hd.distinct, hier_transitions=hd.generated, hier_behaviours_emitted=len(he.printed),
+               hier_crash_positions={DBNAME[o]: len(hseqs[o]) + 1 for o in hseqs})
     orders, _ = spec_write_orders(ctx)
-    points, steps_total, samples, order_checks = 0, 0, [], 0
+
+    points, steps_total, samples, order_checks, redo_checks = 0, 0, [], 0, 0
     seeds = [ctx.seed] if quick else [ctx.seed * 10 + i for i in range(4)]
-    nsteps = 4 if quick else 12
-    windows = set()
+    plan = QUICK_PLAN if quick else THOROUGH_PLAN
+    windows, per_kind, retries, retry_windows = set(), {}, 0, set()
+    etx_compared, records_compared, skipped = 0, 0, 0
+    redo_mismatch = []
     for seed in seeds:
         out = ctx.work / ("crash-%d.json" % seed)
-        p = vlib.run([drv, "crash", "-seed", seed, "-steps", nsteps, "-out", out], timeout=3000)
+        p = vlib.run([drv, "crash", "-seed", seed, "-plan", plan, "-out", out], timeout=5000)
         if p.returncode != 0:
             raise Broken("chaindrv crash failed (%d): %s\n%s" % (p.returncode, p.stdout[-1500:], p.stderr[-1500:]))
         res = json.loads(out.read_text())
         points += res["crash_points"]
         for st in res["steps"]:
             steps_total += 1
-            seq = [CLASS2SPEC[o["class"]] for o in st["ops"] if o["class"] in CLASS2SPEC]
+            kind = st["kind"]
+            base = kind.replace("+size", "")
+            per_kind[kind] = per_kind.get(kind, 0) + st["points"]
+            skipped += st["skipped"]
+            retries += st["retries"]
+            retry_windows.update(st["retry_windows"] or [])
+            etx_compared += st["inbound_etxs"] * st["points"]
+            records_compared += st["records_compared"] * st["points"]
+            # (1) zone-level write order against ZoneChain.tla
+            seq = [CLASS2SPEC[o["class"]] for o in st["ops"] if o["db"] == "zone" and o["class"] in CLASS2SPEC]
             key = (seq.count("w_rollback"), seq.count("w_canon"))
             want = orders.get(key)
             order_checks += 1
-            if want is None and st["kind"] == "append":
+            if want is None and base != "reorg":
                 want = orders.get((0, 1))
-            if want is None and st["kind"] == "reorg":
+            if want is None and base == "reorg":
                 want = orders.get((2, 1))
             if want is None:
-                raise Broken("no TLC behaviour to compare the write order of a %s step with" % st["kind"])
+                raise Broken("no TLC behaviour to compare the write order of a %s step with" % kind)
             if seq != want:
                 # the real code issues its consistency-relevant writes in an order the specification does not allow
-                vlib.report(ctx, {"kind": "write-order", "step": st["kind"]}, {"seed": seed, "recorded": seq, "specified": want, "ops": st["ops"]})
+                vlib.report(ctx, {"kind": "write-order", "step": kind}, {"seed": seed, "recorded": seq, "specified": want, "ops": st["ops"]})
+            if base != "reorg":
+                # (2) three-database write order against HierCrash.tla
+                o = ORDER_OF[base]
+                hseq = ["%s:%s" % (x["db"], x["class"]) for x in st["ops"] if x["class"] in HIER_CLASSES]
+                order_checks += 1
+                if hseq != hseqs[o]:
+                    vlib.report(ctx, {"kind": "write-order-hier", "step": kind}, {"seed": seed, "recorded": hseq, "specified": hseqs[o], "ops": st["ops"]})
+                else:
+                    # (3) every crash position of the specification was realised, and after each of them the repeated offer
+                    # issued the writes the specification predicts
+                    got = set(st["spec_positions"])
+                    if not set(range(len(hseqs[o]) + 1)) <= got:
+                        raise Broken("crash positions of HierCrash.tla not enumerated for a %s step: %s" % (kind, sorted(set(range(len(hseqs[o]) + 1)) - got)))
+                    for pos, rs in zip(st["spec_positions"], st["redo_spec"]):
+                        if rs is None:
+                            continue
+                        redo_checks += 1
+                        if rs != hredo[(o, pos)]:
+                            redo_mismatch.append({"seed": seed, "step": kind, "position": pos, "recorded": rs, "specified": hredo[(o, pos)]})
             for i, o in enumerate(st["ops"]):
-                windows.add(o["class"])
-            if len(samples) < 2:
-                samples.append({"step": st["kind"], "transactions": st["ntx"], "write_ops": [o["class"] for o in st["ops"]],
-                                "crash_points": st["points"]})
+                windows.add(o["db"] + ":" + o["class"])
+            if len(samples) < 3 and (base in ("prime", "reorg") or not samples):
+                samples.append({"step": kind, "transactions": st["ntx"], "write_ops": ["%s:%s" % (o["db"], o["class"]) for o in st["ops"]],
+                                "crash_points": st["points"], "self_healing_refusals": st["retries"]})
         for f in res["failures"] or []:
             vlib.report(ctx, {"kind": "crash-recovery", "window": f["window"], "phase": f["phase"].split("-")[0]},
-                        {"seed": seed, "steps": nsteps, "failure": f, "cmd": "chaindrv crash -seed %d -steps %d" % (seed, nsteps)})
-    if points < 20:
+                        {"seed": seed, "plan": plan, "failure": f, "cmd": "chaindrv crash -seed %d -plan %s" % (seed, plan)})
+    if redo_mismatch and not ctx.violations and not ctx.known_hits:
+        raise Broken("the real node recovers, but by other writes than HierCrash.tla specifies for the repeated offer (specification drift): %s"
+                     % json.dumps(redo_mismatch[:3]))
+    if points < 60:
         raise Broken("only %d crash points enumerated" % points)
-    cov.update(evaluations=points, distinct_nontrivial=points, steps_enumerated=steps_total, write_order_checks=order_checks,
-               traces_validated_against_impl=order_checks, write_classes_seen=sorted(windows), samples=samples, exhaustive=True,
-               rule="for each enumerated step (append of a zone block carrying real Qi/Quai transactions; reorganisation 2 back / 1 forward) EVERY "
-                    "prefix of the recorded database write operations (single puts/deletes and atomic batch commits, trie-node and code writes "
-                    "included) is a crash point: the surviving image is copied, a new core.Core is built on it and must start, report a head whose "
-                    "'ut'/'cl' records equal its header commitments, whose EVM/ETX state opens and whose canonical index leads to genesis, rebuild the "
-                    "pending header, complete the interrupted step and mine on. Every crash point is a distinct (step, prefix length) pair.")
+    cov.update(evaluations=points, distinct_nontrivial=points, steps_enumerated=steps_total, crash_points_per_step_kind=per_kind,
+               write_order_checks=order_checks, reoffer_write_checks=redo_checks, traces_validated_against_impl=order_checks + redo_checks,
+               write_classes_seen=sorted(windows), samples=samples, exhaustive=True,
+               trie_run_prefixes_skipped=skipped, self_healing_refusals=retries, self_healing_windows=sorted(retry_windows),
+               continuation_records_compared=records_compared, continuation_inbound_etxs_compared=etx_compared,
+               rule="prime, region and zone cores run in one process on three databases wrapped with ONE write counter. For each enumerated step "
+                    "(append of a zone-, region- and prime-order block carrying real Qi/Quai transactions: bodies, Slice.Append cascade, head "
+                    "update at every level; zone reorganisation 2 back / 1 forward; the same steps once more with every batch reporting its size "
+                    "x4000 so that size-triggered flushes fire) EVERY prefix of the recorded write operations of the three databases (single "
+                    "puts/deletes and atomic batch commits, trie-node and code writes included) is a crash of the whole process: the three "
+                    "surviving images are copied, three new cores are built on them and must start, report heads whose canonical index leads to "
+                    "genesis and (zone) whose 'ut'/'cl' records equal the header commitments and whose EVM/ETX state opens, complete the "
+                    "interrupted step when the block is offered again at its order level, accept the same four continuation blocks (zone, region, "
+                    "prime, zone) a node that never crashed mined, end with byte-identical inbound-ETX / pending-ETX / rollup / termini / manifest "
+                    "records and zone ledger as that node, and mine on. Every crash point is a distinct (step, prefix length) pair.")
     vlib.write_evidence(ctx, "model_checking", cov, [
         "a batch commit is atomic (leveldb/pebble guarantee); torn batches are out of scope",
-        "crash points inside the zone database only; prime and region stay up (steps are zone-order blocks and zone-level reorganisations); "
-        "crashes during dom-coincident appends are covered by the model only",
-        "memory database image copied record by record",
+        "one process = one global order of writes over the three databases; each write is durable when it returns (no write-back caching)",
+        "the head update of the three levels follows the hierarchical coordinator's order (prime, region, zone), as harness/mininet issues it; "
+        "the coordinator's own bookkeeping database is not part of the model",
+        "inside a run of consecutive pure trie-node commits of a +size step only the first window is enumerated (content-addressed nodes)",
+        "the copies of pending-ETX records nothing reads (prime 'pe', region 'pr') are not compared with the node that did not crash",
+        "memory database images copied record by record",
     ])
 
 
